@@ -399,3 +399,52 @@ Definition optimize (s : seq) : option seq :=
      notices if it comes back. *)
   let s6 := remove_pass s5 in
   if (2 <=? count_pass s6)%nat then None else Some s6.
+
+(* ---- concurrentPath (parallelize.go) and the Slicer decision of
+        optimizeSourcePaths for a pool scan.  A pool scan is written OScan with
+        the pool's sort key.  Result: (length of the concurrent path, sort keys
+        at its exit, orderRequired, needMerge). ---- *)
+
+Definition sk_nil (sk : sortkeys) : bool := match sk with [] => true | _ => false end.
+
+(* isKeyOfSummarize *)
+Definition is_key_of_summarize (keys : list assignment) (in_ : sortkeys) : bool :=
+  match in_ with
+  | [] => false
+  | (_, key) :: _ => summ_match keys key
+  end.
+
+Fixpoint concurrent_path (ops : list op) (k : nat) (sk : sortkeys)
+  : nat * sortkeys * bool * bool :=
+  match ops with
+  | [] => (k, sk, true, true)
+  | o :: r =>
+    match o with
+    | OSummarize _ keys _ _ _ _ =>
+      if is_key_of_summarize keys sk then (k, sk, true, true) else (k, [], false, false)
+    | OSort args _ rev =>
+      match sort_keys_of_sort args rev with
+      | [] => (O, [], false, false)
+      | nk => (k, nk, false, true)
+      end
+    | OFork _ | OHead _ | OTail _ | OUniq _ | OFuse | OJoin _ _ _ _ _ | OOutput _ =>
+      (k, sk, true, true)
+    | _ =>
+      let next := analyze o sk in
+      if negb (sk_nil sk) && sk_nil next then (k, sk, true, true)
+      else concurrent_path r (S k) next
+    end
+  end.
+
+(* Does Optimize put a Slicer between the Lister and the SeqScan?  (The scan
+   must deliver the pool's objects merged in key order.)  None: the plan does
+   not start with a pool scan followed by something. *)
+Definition lake_order_required (s : seq) : option bool :=
+  let s4 := merge_filters (opt_parallels (remove_pass (merge_filters s))) in
+  match s4 with
+  | OScan sk _ :: (_ :: _) as chain =>
+    let chain' := match chain with OFilter _ :: c => c | c => c end in
+    let '(_, _, order_required, _) := concurrent_path chain' O sk in
+    Some order_required
+  | _ => None
+  end.
